@@ -26,6 +26,13 @@ from .index import FuncInfo, Index
 from .npsem import NP, Closure, KindRef, NpSem, Opaque, Raised, Scope, Stub, Unsupported, arrays_equal, conj, has_uninit, sym_array, uninit_array
 
 CONFIGS = [(2, (3,)), (3, (2,)), (3, (2, 4))]
+CONFIGS_THOROUGH = CONFIGS + [(1, (4,)), (2, (3, 4)), (3, (2, 2, 4)), (2, (1,))]
+
+
+def _configs():
+    import os
+
+    return CONFIGS_THOROUGH if os.environ.get("PDELINT_TIER") == "thorough" else CONFIGS
 FIELD_KINDS = {
     "ScalarField": (0, ("ScalarField", "DataFieldBase", "FieldBase")),
     "VectorField": (1, ("VectorField", "DataFieldBase", "FieldBase")),
@@ -176,7 +183,7 @@ def field_method_outcomes(ix: Index) -> list[Outcome]:
     vouter = _impl(ix, "pde/fields/vectorial.py", "VectorField.outer_product")
     tdot = _impl(ix, "pde/fields/tensorial.py", "Tensor2Field.dot")
     tconv = _impl(ix, "pde/fields/tensorial.py", "Tensor2Field.convert")
-    for dim, shape in CONFIGS:
+    for dim, shape in _configs():
         g = grid_stub(dim, shape)
 
         def arr(name, rank):
@@ -242,7 +249,7 @@ def numpy_backend_outcomes(ix: Index) -> list[Outcome]:
     out: list[Outcome] = []
     fdot = ix.func("pde/backends/numpy/backend.py", "NumpyBackend.make_inner_prod_operator")
     fouter = ix.func("pde/backends/numpy/backend.py", "NumpyBackend.make_outer_prod_operator")
-    for dim, shape in CONFIGS:
+    for dim, shape in _configs():
         g = grid_stub(dim, shape)
         fld = field_stub("VectorField", g, sym_array("f", (dim,) + shape), "field")
         for cj in (True, False):
@@ -303,7 +310,7 @@ def numba_backend_outcomes(ix: Index) -> list[Outcome]:
             pass
         return sem, scope
 
-    for dim, shape in CONFIGS:
+    for dim, shape in _configs():
         g = grid_stub(dim, shape)
         fld = field_stub("VectorField", g, sym_array("f", (dim,) + shape), "field")
         nax = len(shape)
@@ -372,7 +379,7 @@ def basis_change_outcomes(ix: Index) -> list[Outcome]:
         src = [n for n in ast.walk(f.node) if isinstance(n, ast.Assign) and any(isinstance(t, ast.Name) and t.id == rot for t in n.targets)]
         if len(src) != 1 or not (isinstance(src[0].value, ast.Call) and isinstance(src[0].value.func, ast.Attribute) and src[0].value.func.attr == "basis_rotation"):
             raise AnalysisError(f"{f.ref}: `{rot}` is not the result of basis_rotation")
-        for dim, shape in CONFIGS:
+        for dim, shape in _configs():
             v, R = sym_array("v", (dim,) + shape), sym_array("R", (dim, dim) + shape)
             sem = NpSem(where=f.ref)
             sc = Scope({"np": NP, call.args[1].id: v.copy(), rot: R.copy()})
